@@ -40,3 +40,21 @@ Theorem C14_history : forall Sc n jobs probe slow,
   let '(r2, t2) := ser Sc n probe (st0 slow) in
   r1 = r2 /\ s_out t1 = s_out t2.
 Proof. exact ser_history. Qed.
+
+(** ** Histories that mix Vec sinks and fixed-size slices (proofs/SerBudgetProofs.v): every job, whatever its sink, gives what it gives on a
+    fresh configuration; a slice job succeeds exactly when the Vec encoding fits and then leaves the same pools *)
+Require Import SerHistory VectoredWrite SinkWrite SinkWriteProofs SerBudgetProofs.
+Theorem C14_history_independent_with_slices :
+  forall (Sc : fschema) (slow : bool) (jobs : list (sval * option N)) (p : pools),
+  pools_ok p -> fst (hist_run Sc slow p jobs) = map (job_fresh Sc slow) jobs.
+Proof. exact hist_run_budget_indep. Qed.
+
+Theorem C14_slice_job_pools :
+  forall (Sc : fschema) (slow : bool) (p : pools) (v : sval) (b : N) (bs : bytes) (pV : pools),
+  hist_step Sc slow p (v, None) = (Ok bs, pV) ->
+  ((nlen bs <= b)%N -> hist_step Sc slow p (v, Some b) = (Ok bs, pV)) /\
+  ((b < nlen bs)%N -> fst (hist_step Sc slow p (v, Some b)) = Err EIo).
+Proof. exact hist_step_budget. Qed.
+
+
+Check hist_step_pools_ok.
